@@ -80,4 +80,187 @@ theorem decodePlain_plainToken (user pass : List UInt8) (h : (0 : UInt8) ∉ use
   simp only [plainToken, List.cons_append, Spec.decodePlain, Spec.splitAtNul, if_true]
   rw [h1, h2]
 
+/-! ### connection start-up -/
+
+@[simp] theorem Trace.stop_sent (o : Outcome) : (Trace.stop o).sent = [] := rfl
+@[simp] theorem Trace.stop_calls (o : Outcome) : (Trace.stop o).calls = [] := rfl
+@[simp] theorem Trace.stop_provCalls (o : Outcome) : (Trace.stop o).provCalls = [] := rfl
+@[simp] theorem Trace.stop_outcome (o : Outcome) : (Trace.stop o).outcome = o := rfl
+@[simp] theorem Trace.pre_sent (s : List Sent) (c : List Call) (t : Trace) : (t.pre s c).sent = s ++ t.sent := rfl
+@[simp] theorem Trace.pre_calls (s : List Sent) (c : List Call) (t : Trace) : (t.pre s c).calls = c ++ t.calls := rfl
+@[simp] theorem Trace.pre_provCalls (s : List Sent) (c : List Call) (t : Trace) : (t.pre s c).provCalls = t.provCalls := rfl
+@[simp] theorem Trace.pre_outcome (s : List Sent) (c : List Call) (t : Trace) : (t.pre s c).outcome = t.outcome := rfl
+
+/-- the tokens of the AUTH_RESPONSE frames among what was sent -/
+def tokens (l : List Sent) : List (List UInt8) :=
+  l.filterMap (fun x => match x with | .authResponse t => some t | _ => none)
+
+@[simp] theorem tokens_nil : tokens [] = [] := rfl
+@[simp] theorem tokens_options (l : List Sent) : tokens (.options :: l) = tokens l := rfl
+@[simp] theorem tokens_startup (l : List Sent) : tokens (.startup :: l) = tokens l := rfl
+@[simp] theorem tokens_resp (t : List UInt8) (l : List Sent) : tokens (.authResponse t :: l) = t :: tokens l := rfl
+
+theorem mem_tokens (l : List Sent) (t : List UInt8) : t ∈ tokens l ↔ Sent.authResponse t ∈ l := by
+  induction l with
+  | nil => simp
+  | cons x xs ih => cases x <;> simp [ih]
+
+/-- the challenge loop never calls anything and never sends anything once the challenger is nil -/
+theorem authLoop_none (fs : List SFrame) :
+    (authLoop none fs).sent = [] ∧ (authLoop none fs).calls = [] ∧ (authLoop none fs).provCalls = [] := by
+  rcases fs with _ | ⟨f, fs⟩
+  · exact ⟨rfl, rfl, rfl⟩
+  · cases f <;> exact ⟨rfl, rfl, rfl⟩
+
+theorem authLoop_provCalls (chal : Option AuthImpl) (fs : List SFrame) : (authLoop chal fs).provCalls = [] := by
+  induction fs generalizing chal with
+  | nil => rfl
+  | cons f fs ih =>
+    cases f <;> try rfl
+    · rcases chal with _ | a
+      · rfl
+      · simp only [authLoop]
+        cases h : a.challenge _ with
+        | error e => rfl
+        | ok r => obtain ⟨resp, next⟩ := r; simp [ih]
+    · rcases chal with _ | a <;> rfl
+
+/-- the loop ends `ready` only on an AUTH_SUCCESS frame -/
+theorem authLoop_ready (chal : Option AuthImpl) (fs : List SFrame) (h : (authLoop chal fs).outcome = .ready) :
+    ∃ d, SFrame.authSuccess d ∈ fs := by
+  induction fs generalizing chal with
+  | nil => cases h
+  | cons f fs ih =>
+    cases f <;> try (cases h)
+    · rename_i d
+      rcases chal with _ | a
+      · cases h
+      · simp only [authLoop] at h
+        cases hc : a.challenge d with
+        | error e =>
+          rw [hc] at h; simp at h; subst h
+          cases a with
+          | pw p => simp only [AuthImpl.challenge] at hc; split at hc <;> cases hc
+          | custom rs sf =>
+            rcases rs with _ | ⟨r, rs⟩
+            · cases hc
+            · simp only [AuthImpl.challenge] at hc; split at hc <;> cases hc
+        | ok r =>
+          obtain ⟨resp, next⟩ := r
+          rw [hc] at h
+          obtain ⟨d', hd⟩ := ih next (by simpa using h)
+          exact ⟨d', List.mem_cons_of_mem _ hd⟩
+    · rename_i d; exact ⟨d, by simp⟩
+
+/-- process death needs an AUTH_CHALLENGE frame -/
+theorem authLoop_crash (chal : Option AuthImpl) (fs : List SFrame) (h : (authLoop chal fs).outcome = .crash) :
+    ∃ d, SFrame.authChallenge d ∈ fs := by
+  induction fs generalizing chal with
+  | nil => cases h
+  | cons f fs ih =>
+    cases f <;> try (cases h)
+    · rename_i d; exact ⟨d, by simp⟩
+    · rcases chal with _ | a
+      · cases h
+      · simp only [authLoop, Trace.pre_outcome, Trace.stop_outcome] at h
+        cases a with
+        | pw p => cases h
+        | custom rs sf => simp only [AuthImpl.success] at h; split at h <;> cases h
+
+/-- an error from `Challenge` is never `ready` / `crash` -/
+theorem challenge_error (a : AuthImpl) (req : List UInt8) (e : Outcome) (h : a.challenge req = .error e) :
+    e = .errUnapproved ∨ e = .errAuthenticator := by
+  cases a with
+  | pw p => simp only [AuthImpl.challenge] at h; split at h <;> cases h; exact Or.inl rfl
+  | custom rs sf =>
+    rcases rs with _ | ⟨r, rs⟩
+    · cases h; exact Or.inr rfl
+    · simp only [AuthImpl.challenge] at h; split at h <;> cases h; exact Or.inr rfl
+
+/-- what a caller-supplied authenticator's challengers hand out, in order -/
+theorem authLoop_custom_tokens (rs : List Round) (sf : Bool) (fs : List SFrame) :
+    tokens (authLoop (some (.custom rs sf)) fs).sent <+: rs.map (·.resp) := by
+  induction fs generalizing rs with
+  | nil => exact List.nil_prefix
+  | cons f fs ih =>
+    cases f <;> try exact List.nil_prefix
+    rename_i d
+    rcases rs with _ | ⟨r, rs⟩
+    · exact List.nil_prefix
+    · simp only [authLoop, AuthImpl.challenge]
+      by_cases hf : r.fail = true
+      · simp [hf]
+      · simp only [hf, Bool.false_eq_true, if_false]
+        by_cases hl : r.last = true
+        · simp [hl, (authLoop_none fs).1]
+        · simp only [hl, Bool.false_eq_true, if_false, Trace.pre_sent, List.cons_append, List.nil_append, tokens_resp,
+            List.map_cons]
+          exact List.prefix_cons_inj r.resp |>.mpr (ih rs)
+
+/-- the requests passed to `Challenge`, in order -/
+def challengeReqs (l : List Call) : List (List UInt8) :=
+  l.filterMap (fun x => match x with | .challenge r => some r | _ => none)
+
+@[simp] theorem challengeReqs_nil : challengeReqs [] = [] := rfl
+@[simp] theorem challengeReqs_chal (r : List UInt8) (l : List Call) : challengeReqs (.challenge r :: l) = r :: challengeReqs l := rfl
+@[simp] theorem challengeReqs_succ (d : List UInt8) (l : List Call) : challengeReqs (.success d :: l) = challengeReqs l := rfl
+
+/-- payloads of the AUTH_CHALLENGE frames the server sends in a row -/
+def leadingChallenges : List SFrame → List (List UInt8)
+  | .authChallenge d :: rest => d :: leadingChallenges rest
+  | _ => []
+
+/-- `Challenge` is called with what the server sent, in order -/
+theorem authLoop_reqs (chal : Option AuthImpl) (fs : List SFrame) :
+    challengeReqs (authLoop chal fs).calls <+: leadingChallenges fs := by
+  induction fs generalizing chal with
+  | nil => exact List.nil_prefix
+  | cons f fs ih =>
+    cases f <;> try exact List.nil_prefix
+    · rename_i d
+      rcases chal with _ | a
+      · exact List.nil_prefix
+      · simp only [authLoop, leadingChallenges]
+        cases a.challenge d with
+        | error e => simp
+        | ok r =>
+          obtain ⟨resp, next⟩ := r
+          simpa [List.prefix_cons_inj] using ih next
+    · rcases chal with _ | a
+      · exact List.nil_prefix
+      · simp [authLoop, leadingChallenges]
+
+/-- with an authenticator whose `Success` fails, `ready` is reached only when `Success` was never called
+    (the chain had ended with a nil challenger) -/
+theorem authLoop_success_fails (chal : Option AuthImpl) (fs : List SFrame)
+    (hc : ∀ a, chal = some a → ∃ rs, a = .custom rs true)
+    (h : (authLoop chal fs).outcome = .ready) : ∀ d, Call.success d ∉ (authLoop chal fs).calls := by
+  induction fs generalizing chal with
+  | nil => cases h
+  | cons f fs ih =>
+    cases f <;> try (cases h)
+    · rename_i d
+      rcases chal with _ | a
+      · cases h
+      · obtain ⟨rs, rfl⟩ := hc a rfl
+        rcases rs with _ | ⟨r, rs⟩
+        · simp [authLoop, AuthImpl.challenge] at h
+        · simp only [authLoop, AuthImpl.challenge] at h ⊢
+          by_cases hf : r.fail = true
+          · simp [hf] at h
+          · simp only [hf, Bool.false_eq_true, if_false, Trace.pre_outcome] at h
+            simp only [hf, Bool.false_eq_true, if_false, Trace.pre_calls]
+            intro d' hm
+            simp only [List.cons_append, List.nil_append, List.mem_cons, reduceCtorEq, false_or] at hm
+            refine ih _ ?_ h d' hm
+            intro a ha
+            by_cases hl : r.last = true
+            · simp [hl] at ha
+            · simp only [hl, Bool.false_eq_true, if_false, Option.some.injEq] at ha
+              exact ⟨rs, ha.symm⟩
+    · rcases chal with _ | a
+      · intro d; simp [authLoop]
+      · obtain ⟨rs, rfl⟩ := hc a rfl
+        simp [authLoop, AuthImpl.success] at h
+
 end TlsAuth
